@@ -177,6 +177,58 @@ def _run_one(task):
     return out
 
 
+_HISTORY_CHILD = r"""
+import sys, json
+sys.path.insert(0, %(root)r)
+from vf import core
+core._history_child(%(modname)r, json.loads(%(task)r), json.loads(%(case)r))
+"""
+
+
+def _canon_json(x):
+    return json.dumps(json.loads(json.dumps(x, default=str)), sort_keys=True)
+
+
+def _tuplify(x):
+    if isinstance(x, list):
+        return tuple(_tuplify(y) for y in x)
+    return x
+
+
+def _history_child(modname, task, case):
+    _init_worker(modname)
+    want = _canon_json(case)
+    for variant in (task, _tuplify(task)):
+        try:
+            r = _MOD.run_task(variant)
+        except Exception:
+            continue
+        for rec in r.discrepancies:
+            if _canon_json(rec["case"]) == want:
+                print("HISTORY-RESULT " + json.dumps(rec["diffs"], default=str))
+                return
+        print("HISTORY-RESULT []")
+        return
+    print("HISTORY-RESULT null")
+
+
+def history_replay(modname, task, case, timeout=1800):
+    """Run the whole task in a fresh interpreter and return the discrepancies it reports for `case`
+    (None when the task cannot be re-run).  The task is the history: nothing else ran in that interpreter."""
+    import subprocess
+
+    root = os.path.dirname(os.path.dirname(os.path.abspath(__file__)))
+    code = _HISTORY_CHILD % {"root": root, "modname": modname, "task": json.dumps(task, default=str), "case": json.dumps(case, default=str)}
+    try:
+        p = subprocess.run([sys.executable, "-c", code], capture_output=True, text=True, env=dict(os.environ), timeout=timeout)
+    except subprocess.TimeoutExpired:
+        return None
+    for line in p.stdout.splitlines():
+        if line.startswith("HISTORY-RESULT "):
+            return json.loads(line[len("HISTORY-RESULT "):])
+    return None
+
+
 def run_check(modname, tier, replay_path=None, jobs=None):
     setup_env()
     assert_tree()
@@ -188,7 +240,10 @@ def run_check(modname, tier, replay_path=None, jobs=None):
     if replay_path:
         with open(replay_path) as f:
             rec = json.load(f)
-        diffs = mod.replay(rec["case"])
+        if rec.get("task") is not None:
+            diffs = history_replay(modname, rec["task"], rec["case"]) or []
+        else:
+            diffs = mod.replay(rec["case"])
         unexplained = [d for d in diffs if not match_finding(findings, d)]
         for d in diffs:
             print(("DIFF " if d in unexplained else "KNOWN ") + json.dumps(d, default=str))
@@ -220,7 +275,8 @@ def run_check(modname, tier, replay_path=None, jobs=None):
         it = map(_run_one, tasks)
         pool = None
     else:
-        pool = ctx.Pool(jobs, initializer=_init_worker, initargs=(modname,))
+        # one forked child per task: a task's cases then share a process history that consists of that task alone
+        pool = ctx.Pool(jobs, initializer=_init_worker, initargs=(modname,), maxtasksperchild=1)
         it = pool.imap_unordered(_run_one, tasks, chunksize=1)
     try:
         for out in it:
@@ -232,6 +288,8 @@ def run_check(modname, tier, replay_path=None, jobs=None):
             agg.outcomes.update(out["outcomes"])
             for s in out["samples"]:
                 agg.sample(s, cap=5)
+            for rec_ in out["discrepancies"]:
+                rec_["task"] = out["task"]  # the history a case was observed in (see history_replay)
             agg.discrepancies.extend(out["discrepancies"])
             agg.states += out["states"]
             agg.transitions += out["transitions"]
@@ -271,7 +329,7 @@ def run_check(modname, tier, replay_path=None, jobs=None):
                 known_hits[e["id"]] += 1
                 known_entries[e["id"]] = e
         if un:
-            violations.append({"case": rec["case"], "diffs": un})
+            violations.append({"case": rec["case"], "diffs": un, "task": rec.get("task")})
 
     for fid, n in sorted(known_hits.items()):
         e = known_entries[fid]
@@ -281,6 +339,7 @@ def run_check(modname, tier, replay_path=None, jobs=None):
     vio_lines = []
     seen_kinds = collections.Counter()
     unstable = 0
+    history_budget = 3
     os.makedirs(os.path.join(REPLAY_DIR, prop), exist_ok=True)
     # shortest cases first
     violations.sort(key=lambda v: len(json.dumps(v["case"], default=str)))
@@ -294,14 +353,30 @@ def run_check(modname, tier, replay_path=None, jobs=None):
         except Exception:
             again = [{"kind": "replay-crashed", "trace": traceback.format_exc()[-600:]}]
         again_un = [d for d in again if not match_finding(findings, d)]
+        with_history = False
         if {sig_of(d) for d in again_un} != {sig_of(d) for d in v["diffs"]}:
-            unstable += 1
-            print("UNSTABLE: replay of a reported case differs: %s vs %s" % (
-                sorted({sig_of(d) for d in v["diffs"]}), sorted({sig_of(d) for d in again_un})))
-            continue
+            # the case alone does not reproduce in this process.  Either the harness is at fault, or the outcome depends on
+            # what the interpreter did before (a cache on a shared object, a memoised table): replay the case *with its
+            # history* - the task that produced it, from the task's first case, in a fresh interpreter.
+            hist = None
+            if v.get("task") is not None and history_budget > 0:
+                history_budget -= 1
+                hist = history_replay(modname, v["task"], v["case"])
+            hist_un = [d for d in (hist or []) if not match_finding(findings, d)]
+            if hist is None or {sig_of(d) for d in hist_un} != {sig_of(d) for d in v["diffs"]}:
+                unstable += 1
+                print("UNSTABLE: replay of a reported case differs: %s vs %s" % (
+                    sorted({sig_of(d) for d in v["diffs"]}), sorted({sig_of(d) for d in again_un})))
+                continue
+            with_history = True
+            print("  (reproduces only with its process history: replayed as the whole task in a fresh interpreter)")
         path = os.path.join(REPLAY_DIR, prop, h8(v["case"]) + ".json")
         with open(path, "w") as f:
-            json.dump({"property": prop, "case": v["case"], "diffs": v["diffs"]}, f, indent=1, default=str)
+            rec_out = {"property": prop, "case": v["case"], "diffs": v["diffs"]}
+            if with_history:
+                rec_out["task"] = v["task"]
+                rec_out["module"] = modname
+            json.dump(rec_out, f, indent=1, default=str)
         vio_lines.append("VIOLATION property=%s replay=%s" % (prop, path))
         print("  case: " + json.dumps(v["case"], default=str)[:700])
         for d in v["diffs"][:4]:
